@@ -131,6 +131,12 @@ func (s *Sniffer) readStreamOnceWithReadDeadline() error {
 
 	var netErr net.Error
 	if errors.As(err, &netErr) && netErr.Timeout() {
+		// The sniff window expiring is not a stream error: the connection is
+		// still healthy and the read deadline has been restored above. Do not
+		// keep the timeout as a sticky dataError, otherwise every later
+		// Sniffer.Read (relay phase) fails with "i/o timeout" and the relay
+		// force-closes a connection whose ClientHello merely arrived slowly.
+		s.dataError = nil
 		// Keep behavior consistent with context timeout path in the legacy async read.
 		return fmt.Errorf("%w: %w", ErrNotApplicable, context.DeadlineExceeded)
 	}
